@@ -401,8 +401,19 @@ Fixpoint lex_f (fuel : nat) (ls : lexstate) (src : list ch) (lineno : Z) : res l
                  match sysfunc_lookup word sysfunc_rows None with
                  | None => Unsupported U_MACRO
                  | Some (ttype, (argt, _)) =>
-                   if (argt =? 73) && (list_eqb ttype (zs "Track") || list_eqb ttype (zs "Channel")
-                                       || list_eqb ttype (zs "KeyShift") || list_eqb ttype (zs "TrackKey")) then
+                   if ((argt =? 73) || (argt =? 65)) &&
+                      (list_eqb ttype (zs "Time") || list_eqb ttype (zs "PlayFrom") || list_eqb ttype (zs "TimeSignature")) then
+                     let '(s2, ln2) := skip_space s1 ln in
+                     let s3 := if eq_char s2 61 then tl s2 else s2 in
+                     do ra <- read_args_tokens ls s3 ln2;
+                     let '(vs, s4, ln4, ls') := ra in
+                     let args := map (fun o => match o with Some v => v | None => 0 end) vs in
+                     let t := if list_eqb ttype (zs "Time") then TTime args
+                              else if list_eqb ttype (zs "PlayFrom") then TPlayFrom args else TTimeSignature args in
+                     loop n' ls' s4 ln4 harmony (acc ++ [t])
+                   else if (argt =? 73) && (list_eqb ttype (zs "Track") || list_eqb ttype (zs "Channel")
+                                       || list_eqb ttype (zs "KeyShift") || list_eqb ttype (zs "TrackKey")
+                                       || list_eqb ttype (zs "MeasureShift") || list_eqb ttype (zs "Tempo")) then
                      let '(s2, ln2) := skip_space s1 ln in
                      let s3 := if eq_char s2 61 then tl s2 else s2 in
                      do ra <- read_args_tokens ls s3 ln2;
@@ -412,7 +423,9 @@ Fixpoint lex_f (fuel : nat) (ls : lexstate) (src : list ch) (lineno : Z) : res l
                        let v := last_arg vs in
                        let t := if list_eqb ttype (zs "Track") then TTrack v
                                 else if list_eqb ttype (zs "Channel") then TChannel v
-                                else if list_eqb ttype (zs "KeyShift") then TKeyShift v else TTrackKey v in
+                                else if list_eqb ttype (zs "KeyShift") then TKeyShift v
+                                else if list_eqb ttype (zs "MeasureShift") then TMeasureShift v
+                                else if list_eqb ttype (zs "Tempo") then TTempo v else TTrackKey v in
                        loop n' ls' s4 ln4 harmony (acc ++ [t])
                      | _ => Unsupported U_UPPER
                      end
